@@ -62,7 +62,7 @@ def main():
     allp = a.props.split(",") if a.props else None
 
     def job(m):
-        props = allp or m["expect"] or ["C01"]
+        props = allp or m["expect"] or m.get("check") or ["C01"]
         return run_one(m, props, a.skip_tests, a.tier)
 
     with ThreadPoolExecutor(a.jobs) as ex:
